@@ -302,7 +302,13 @@ def q_build(mod, c_sys, basis, ipr):
                 states.append(State(c_sys, np.ascontiguousarray(np.real(rm.vec(basis, s / qi))), is_physicality_required=ipr))
             else:
                 states.append(State(c_sys, np.zeros(len(basis), dtype=np.float64), is_physicality_required=False))
-        return StateEnsemble(states, MultinomialDistribution(q.copy(), shape=tuple(mod["shape"])))
+        from harness import reps
+
+        weights = q.copy()
+        if reps._on() and reps.int_valued(q) and reps.pick(("ensw", q.tobytes(), len(basis)), 2) == 0:
+            # integer-valued weights handed over as Python ints (the way the library's own typical ensembles write them)
+            weights = [int(v) for v in q]
+        return StateEnsemble(states, MultinomialDistribution(weights, shape=tuple(mod["shape"])))
     kw = {"is_physicality_required": ipr}
     m = None
     if t == "mprocess":
@@ -409,7 +415,8 @@ def _shape_ok(ctx, reported, expected, oid, shape_mode):
 
 def _compare_ps(ctx, ps, shape, e_ps, zero, e_shape, ptol, oid, shape_mode):
     ps = np.asarray(ps)
-    if not ctx.check(ps.ndim == 1 and ps.shape == e_ps.shape and ps.dtype.kind == "f", oid + ":ps_layout",
+    # (an ensemble given integer weights may report them as integers: real numbers either way)
+    if not ctx.check(ps.ndim == 1 and ps.shape == e_ps.shape and ps.dtype.kind in "fiu", oid + ":ps_layout",
                      f"ps shape {ps.shape} dtype {ps.dtype}, model {e_ps.shape}"):
         return False
     ok = _shape_ok(ctx, shape, e_shape, oid, shape_mode)
@@ -484,7 +491,7 @@ def _gate_case(shape):
 
 @st.composite
 def _ensemble_case(draw, shape):
-    ens_shape = draw(st.sampled_from([[2], [3], [2, 2], [2, 3], [3, 2]]))
+    ens_shape = draw(st.sampled_from([[2], [3], [2, 2], [2, 3], [3, 2], [1], [1, 1]]))  # incl. the certain ensemble
     k = int(np.prod(ens_shape))
     zm = [False] * k
     if draw(st.integers(0, 3)) == 0:
